@@ -177,7 +177,9 @@ static std::string run_search(const Case &c, vf::Ctx &ctx) {
     const rtosc::Port *ap = (c.location.empty() || c.location == "/") ? nullptr : inst.rootports().apropos(c.location.c_str());
     const rtosc::Ports *got_children = (c.location.empty() || c.location == "/") ? &inst.rootports() : (ap && ap->ports ? ap->ports : nullptr);
     const rtosc::Ports *want_children = ctable >= 0 ? inst.tabs[(size_t)ctable].get() : nullptr;
-    bool same_single = !single || (ap && c.tree.tables.size() && std::string(ap->name) == single->name);
+    bool same_single = single ? (ap && !ap->ports && std::string(ap->name) == single->name) : (!ap || ap->ports != nullptr || c.location.empty() || c.location == "/");
+    // (the library's lookup is by prefix and takes the first of equally named ports; where it resolves the location
+    //  differently from the model - duplicates, prefix siblings - the lookup, not the search, is ambiguous)
     if (got_children != want_children || !same_single) { ctx.count("search.location_lookup_ambiguous(skipped)"); return ""; }
   }
   struct E { std::string name, meta; bool has; };
